@@ -14,6 +14,21 @@ import common
 from common import Channel
 
 PROP = "C20"
+CLAIM = True
+MANIFEST_ENTRY = {
+    "design_ref": "7 C20",
+    "level_text": (
+        "Lean 4 refinement proof: for every file, window, buffer size, cache limit, eviction policy and "
+        "finite operation sequence the model of BufferedReader returns what an in-memory stream over the "
+        "window returns (refines_slice + corollaries never_outside_window, pos_clamped, eviction_invisible, "
+        "cache_bounded); the hand-written model is tied to the code on every run by a differential "
+        "correspondence check over seeded operation sequences, and an independent slice-stream oracle "
+        "evaluates the property text on the real class."),
+    "level_note": (
+        "Trusted: Lean kernel (+propext, Classical.choice, Quot.sound), the correspondence harness and "
+        "compiled driver, io.BytesIO as the file, model of seek/read as drop/take. Window explicit and inside the file."),
+    "technique": "Lean 4 proof (induction over operation list, cache-coherence invariant) + model/implementation correspondence",
+}
 PROP_FILES = ["DashLive/Props/C20.lean"]
 LEAN_TARGETS = ["DashLive.Props.C20"]
 TRUSTED = [
